@@ -475,13 +475,52 @@ func observe(out p.Output) observation {
 }
 
 // RunCase runs the real pipeline on one case.
-func RunCase(id int, c *Case) line {
-	_, out := p.RunFresh(c.Objs, c.Opts, nil)
+func RunCase(id int, c *Case) line { return RunCaseRegen(id, c, 0)[0] }
+
+// RunCaseRegen runs the real pipeline on one case; when the configuration has at least two SSL key pairs the files
+// are GENERATED AGAIN `regen` times from the same dataplane.Configuration (the generator ranges over the key-pair
+// map, so the order in which the files are written differs between generations) and every generation that differs
+// in a secrets file from the first one is returned as a further line (kind "<kind>+regen").
+func RunCaseRegen(id int, c *Case, regen int) []line {
+	ctl, out := p.RunFresh(c.Objs, c.Opts, nil)
 	var gwKey *nn
 	if out.Graph != nil && out.Graph.Gateway != nil {
 		gwKey = &nn{out.Graph.Gateway.Source.Namespace, out.Graph.Gateway.Source.Name}
 	}
-	return line{ID: id, Kind: c.Kind, Name: c.Name, Tags: c.Tags, In: buildInput(c.Objs, gwKey), Obs: observe(out)}
+	first := line{ID: id, Kind: c.Kind, Name: c.Name, Tags: c.Tags, In: buildInput(c.Objs, gwKey), Obs: observe(out)}
+	lines := []line{first}
+	if out.Panic != "" || out.Conf == nil || len(out.Conf.SSLKeyPairs) < 2 {
+		return lines
+	}
+	secretsOf := func(fs []obsFile) string {
+		var b strings.Builder
+		for _, f := range fs {
+			if strings.HasPrefix(f.Path, "/etc/nginx/secrets/") {
+				b.WriteString(f.Path + "\x00" + f.Content + "\x00")
+			}
+		}
+		return b.String()
+	}
+	seen := map[string]bool{secretsOf(first.Obs.Files): true}
+	for i := 0; i < regen; i++ {
+		var files []obsFile
+		func() {
+			defer func() { _ = recover() }()
+			for _, f := range p.SortedFiles(ctl.Gen.Generate(*out.Conf)) {
+				if f.Path == "/etc/nginx/conf.d/http.conf" || strings.HasPrefix(f.Path, "/etc/nginx/secrets/") {
+					files = append(files, obsFile{Path: f.Path, Type: int(f.Type), Content: string(f.Content)})
+				}
+			}
+		}()
+		if k := secretsOf(files); files != nil && !seen[k] {
+			seen[k] = true
+			l := first
+			l.Kind = c.Kind + "+regen"
+			l.Obs.Files = files
+			lines = append(lines, l)
+		}
+	}
+	return lines
 }
 
 func Run(args []string) int {
@@ -530,7 +569,9 @@ func Run(args []string) int {
 			id++
 			return
 		}
-		_ = enc.Encode(RunCase(id, c))
+		for _, l := range RunCaseRegen(id, c, 5) {
+			_ = enc.Encode(l)
+		}
 		w.Flush()
 		id++
 	}
